@@ -2,7 +2,7 @@ use std::{io, num::NonZero};
 
 use crate::io::reader::num::{read_u8, read_uint7_as};
 
-pub(super) fn decode(src: &mut &[u8], len: usize) -> io::Result<Vec<u8>> {
+pub(super) fn decode(src: &mut &[u8], len: usize, depth: usize) -> io::Result<Vec<u8>> {
     let chunk_count = read_chunk_count(src)?;
 
     let compressed_sizes = read_compressed_sizes(src, chunk_count)?;
@@ -13,7 +13,7 @@ pub(super) fn decode(src: &mut &[u8], len: usize) -> io::Result<Vec<u8>> {
         .zip(uncompressed_sizes)
         .map(|(compressed_size, uncompressed_size)| {
             let buf = split_off(src, compressed_size)?;
-            let chunk = super::decode(buf, uncompressed_size)?;
+            let chunk = super::decode_nested(buf, uncompressed_size, depth)?;
 
             if chunk.len() == uncompressed_size {
                 Ok(chunk)
